@@ -8,6 +8,27 @@ from concurrent.futures import ThreadPoolExecutor
 
 VERIF = os.path.dirname(os.path.dirname(os.path.dirname(os.path.abspath(__file__))))
 REPO = os.environ.get("KALIGN_REPO", "/repo")
+
+
+def _ensure_dev_null():
+    """a sandbox accident (someone unlinking /dev/null as root, after which `> /dev/null` creates a regular file) makes every
+    `stdin=DEVNULL` child read garbage as an extra kalign input; put the character device back when we can, refuse to run otherwise"""
+    import stat
+    try:
+        if stat.S_ISCHR(os.stat("/dev/null").st_mode):
+            return
+    except OSError:
+        pass
+    try:
+        if os.path.lexists("/dev/null"):
+            os.remove("/dev/null")
+        os.mknod("/dev/null", 0o666 | stat.S_IFCHR, os.makedev(1, 3))
+        os.chmod("/dev/null", 0o666)
+    except OSError as ex:
+        raise SystemExit("internal error: /dev/null is not a character device and cannot be repaired (%s)" % ex)
+
+
+_ensure_dev_null()
 LEAN = os.path.join(VERIF, "lean")
 HARNESS = os.path.join(VERIF, "harness")
 EVID = os.path.join(VERIF, "evidence")
@@ -342,9 +363,9 @@ def audit_axioms(prop):
     txt = p.stdout.decode(errors="replace") + p.stderr.decode(errors="replace")
     res = {}
     # "'Kalign.foo' depends on axioms: [propext, Quot.sound]" / "'Kalign.foo' does not depend on any axioms"
-    for m in re.finditer(r"'([^']+)' depends on axioms: \[([^\]]*)\]", txt, re.S):
+    for m in re.finditer(r"^'(\S+)' depends on axioms: \[([^\]]*)\]", txt, re.S | re.M):
         res[m.group(1)] = [a.strip() for a in m.group(2).replace("\n", " ").split(",") if a.strip()]
-    for m in re.finditer(r"'([^']+)' does not depend on any axioms", txt):
+    for m in re.finditer(r"^'(\S+)' does not depend on any axioms", txt, re.M):
         res[m.group(1)] = []
     return p.returncode == 0, res, txt
 
